@@ -18,6 +18,7 @@
   (Lemmas/StakingSum.lean was an earlier, unfinished start of part A; it is not imported.)
 -/
 import MxModel.Lemmas.StakingFactors
+import Mathlib.Data.List.Dedup
 
 namespace Mx.Staking
 
@@ -259,7 +260,9 @@ theorem wsum_succ_fresh {hold : Nat → Nat → Nat} {accts : List Nat} {N : Nat
 
 /-! ## B. the position view and the invariant -/
 
-/-- the cells of a state the position-token clauses (and the potential-function bound) talk about -/
+/-- the cells of a state the position-token clauses (and the potential-function bound) talk about;
+    `accts` = the DISTINCT accounts of the world (`s.accts.dedup`: same members, no repetition, so
+    that sums over the accounts count every account once whatever list the world was created with) -/
 structure PV where
   accts : List Nat
   hold : Nat → Nat → Nat
@@ -271,9 +274,12 @@ structure PV where
   paidBase : Nat
   baseBudget : Nat
   dsc : Nat
+  /-- the account list as the world was created with it (never changes) -/
+  raw : List Nat
 
 def pv (s : St) : PV :=
-  ⟨s.accts, s.hold, s.md, s.nonce, s.userTotal, s.supply, s.rps, s.paidBase, s.baseBudget, s.dsc⟩
+  ⟨s.accts.dedup, s.hold, s.md, s.nonce, s.userTotal, s.supply, s.rps, s.paidBase, s.baseBudget, s.dsc,
+   s.accts⟩
 
 /-- weight "nonce `n` is a staking position" -/
 def posW (md : Nat → Option Meta) (n : Nat) : Nat :=
@@ -575,5 +581,122 @@ theorem PosOK.transfer {v : PV} (hI : PosOK v) {src dst : Nat} {pay : Pay} {h0 :
   · show v.ut o = wsum _ v.accts (v.nonce + 1) (ownW v.md o)
     rw [hI.own o]
     exact (wsum_congr (fun n _ => hout n) (fun _ _ => rfl)).symm
+
+/-! ## C. the transitions of the view -/
+
+/-- weight "what one unit of nonce `n` can still claim at index `R`" (`R − entry index`,
+    saturating; 0 for unbond tokens) — the potential of Lemmas/StakingPot.lean -/
+def potW (md : Nat → Option Meta) (R n : Nat) : Nat :=
+  match posOf md n with
+  | some a => R - a.rps
+  | none => 0
+
+theorem potW_some {md : Nat → Option Meta} {n : Nat} {a : Attrs} (h : posOf md n = some a) (R : Nat) :
+    potW md R n = R - a.rps := by simp only [potW, h]
+
+theorem potW_none {md : Nat → Option Meta} {n : Nat} (h : posOf md n = none) (R : Nat) :
+    potW md R n = 0 := by simp only [potW, h]
+
+/-- `calculate_base_farm_rewards` as a function of the numbers it reads -/
+def baseAmt (R dsc amt r : Nat) : Nat := if r < R then amt * (R - r) / dsc else 0
+
+theorem baseReward_eq (c : Cache) (dsc amt : Nat) (t : Attrs) :
+    baseReward c dsc amt t = baseAmt c.rps dsc amt t.rps := rfl
+
+/-- a base reward never exceeds the un-rounded entitlement -/
+theorem baseAmt_le (R dsc amt r : Nat) : dsc * baseAmt R dsc amt r ≤ amt * (R - r) := by
+  unfold baseAmt
+  split
+  · exact Nat.mul_div_le _ _
+  · simp
+
+/-- the index increment never hands out more than the base share: `supply · inc ≤ dsc · base` -/
+theorem rpsInc_mul_le (dsc base supply : Nat) : supply * rpsInc dsc base supply ≤ dsc * base := by
+  unfold rpsInc
+  split
+  · simp
+  · rw [Nat.mul_comm dsc base]; exact Nat.mul_div_le _ _
+
+/-- `merge_attributes_from_payments` creates no value: at every index `R` the merged position's
+    un-rounded entitlement is at most that of the base plus that of the parts merged in -/
+theorem mergeParts_pot (m : Nat → Option Meta) (R : Nat) :
+    ∀ (pays : List Pay) (base out : Attrs), mergeParts m base pays = some out →
+      out.amount * (R - out.rps) ≤ base.amount * (R - base.rps) + payW (potW m R) pays
+  | [], base, out, h => by
+      simp only [mergeParts, Option.some.injEq] at h
+      subst h
+      simp [payW]
+  | p :: ps, base, out, h => by
+      simp only [mergeParts, Option.bind_eq_bind, Option.bind_eq_some_iff] at h
+      obtain ⟨a, ha, part, hp, mg, hm, hrest⟩ := h
+      obtain ⟨e1, _, e3, _⟩ := intoPart_spec hp
+      obtain ⟨m1, m2, _, m4, _⟩ := mergeWith_spec hm
+      have ih := mergeParts_pot m R ps mg out hrest
+      have hg := merge_no_gain_arith base.rps base.amount part.rps part.amount R m1
+      rw [← m4, ← m2, e1, e3] at hg
+      simp only [payW, potW_some ha]
+      rw [Nat.mul_comm (R - a.rps) p.2]
+      omega
+
+/-- the merged position: amount and owner -/
+theorem mergeParts_amount {m : Nat → Option Meta} {pays : List Pay} {base out : Attrs}
+    (h : mergeParts m base pays = some out) :
+    out.amount = base.amount + payTot pays ∧ out.owner = base.owner := by
+  obtain ⟨h1, h2, _⟩ := mergeParts_spec m pays base out h
+  rw [payTot_eq]
+  exact ⟨h1, h2⟩
+
+/-- What ONE successful transaction does to the position view: rewards are generated first
+    (`inc`, `base`; both 0 when the endpoint does not settle), and then
+    * nothing else (admin endpoints, `claimBoostedRewards`, …), or
+    * payments are taken in and one position is re-issued (stake, claim, compound, merge), or
+    * a position part is exchanged for an unbond token (unstake), or
+    * unbond tokens are redeemed, or
+    * SFT units move between two accounts. -/
+def PTrans (v v' : PV) : Prop :=
+  ∃ inc base, v.supply * inc ≤ v.dsc * base ∧
+    (v' = v.gen inc base ∨
+     (∃ (c user : Nat) (pays : List Pay) (h0 : Nat → Nat → Nat) (ut1 ut2 : Nat → Nat) (tok : Attrs)
+        (supply2 paid : Nat),
+        c ∈ v.accts ∧ debit v.hold c pays = some h0 ∧
+        checkAndUpdate v.md user v.ut pays = some ut1 ∧ tok.owner = user ∧
+        supply2 + payTot pays = v.supply + tok.amount ∧
+        (∀ o, ut2 o + (if o = user then payTot pays else 0)
+            = ut1 o + (if o = user then tok.amount else 0)) ∧
+        tok.amount * (v.rps + inc - tok.rps) + v.dsc * paid ≤ payW (potW v.md (v.rps + inc)) pays ∧
+        v' = (v.gen inc base).remint c h0 tok ut2 supply2 paid) ∨
+     (∃ (c : Nat) (pay : Pay) (h0 : Nat → Nat → Nat) (attrs : Attrs) (e x supply2 paid : Nat),
+        c ∈ v.accts ∧ debit v.hold c [pay] = some h0 ∧ posOf v.md pay.1 = some attrs ∧
+        supply2 + pay.2 = v.supply ∧ v.dsc * paid ≤ pay.2 * (v.rps + inc - attrs.rps) ∧
+        v' = (v.gen inc base).burn c h0 e x (decreaseUT v.ut attrs.owner pay.2) supply2 paid) ∨
+     (∃ (c : Nat) (pays : List Pay) (h0 : Nat → Nat → Nat),
+        c ∈ v.accts ∧ debit v.hold c pays = some h0 ∧ (∀ p ∈ pays, posOf v.md p.1 = none) ∧
+        v' = (v.gen inc base).setHold h0) ∨
+     (∃ (src dst : Nat) (pay : Pay) (h0 : Nat → Nat → Nat),
+        src ∈ v.accts ∧ dst ∈ v.accts ∧ debit v.hold src [pay] = some h0 ∧
+        v' = (v.gen inc base).setHold (upd2 h0 dst pay.1 (h0 dst pay.1 + pay.2))))
+
+theorem PTrans.refl (v : PV) : PTrans v v :=
+  ⟨0, 0, by simp, Or.inl rfl⟩
+
+/-- no transition touches the account list or the division-safety constant -/
+theorem PTrans.const {v v' : PV} (h : PTrans v v') : v'.raw = v.raw ∧ v'.dsc = v.dsc ∧ v'.accts = v.accts := by
+  obtain ⟨inc, base, _, h⟩ := h
+  rcases h with h | ⟨_, _, _, _, _, _, _, _, _, _, _, _, _, _, _, _, h⟩ |
+    ⟨_, _, _, _, _, _, _, _, _, _, _, _, _, h⟩ | ⟨_, _, _, _, _, _, h⟩ | ⟨_, _, _, _, _, _, _, h⟩ <;>
+    rw [h] <;> exact ⟨rfl, rfl, rfl⟩
+
+/-- every transition keeps the position-token invariant -/
+theorem PosOK.trans {v v' : PV} (hI : PosOK v) (h : PTrans v v') : PosOK v' := by
+  obtain ⟨inc, base, _, h⟩ := h
+  have hG := hI.gen inc base
+  rcases h with rfl | ⟨c, user, pays, h0, ut1, ut2, tok, supply2, paid, hc, hd, hk, ho, hs, hu, _, rfl⟩ |
+    ⟨c, pay, h0, attrs, e, x, supply2, paid, hc, hd, ha, hs, _, rfl⟩ |
+    ⟨c, pays, h0, hc, hd, hz, rfl⟩ | ⟨src, dst, pay, h0, hs, hdst, hd, rfl⟩
+  · exact hG
+  · exact hG.remint paid hc hd hk ho hs hu
+  · exact hG.burn e x paid hc hd ha hs
+  · exact hG.setHold_debit hc hd hz
+  · exact hG.transfer hs hdst hd
 
 end Mx.Staking
